@@ -55,6 +55,13 @@ def oracle(case):
     p_sc = np.array([float(d.pdf(float(v))) for v in xs])
     if not np.allclose(p_arr, p_sc, rtol=1e-15, atol=0):
         return ({"cls": cname, "clause": "kinds", "method": "pdf"}, "pdf differs between scalar and ndarray arguments")
+    try:
+        p_list = np.asarray(d.pdf(list(xs)), dtype=float)
+        i_list = np.asarray(d.icdf([0.25, 0.5, 0.75]), dtype=float)
+    except Exception as e:  # noqa
+        return ({"cls": cname, "clause": "kinds", "method": "list", "exc": type(e).__name__}, "pdf/icdf of a list (array_like, as documented) raised %s: %s" % (type(e).__name__, str(e)[:80]))
+    if not (np.array_equal(p_list, p_arr) and np.array_equal(i_list, np.asarray(d.icdf(np.array([0.25, 0.5, 0.75]))))):
+        return ({"cls": cname, "clause": "kinds", "method": "list"}, "pdf/icdf differ between list and ndarray arguments")
     # ---- documented formula
     doc = D.doc_cdf(cname, th, x)
     if doc is not None and not np.allclose(c_arr, doc, **tol):
